@@ -99,8 +99,29 @@ func TokenFrom(stride *core.Stride) string {
 	return ErrToken
 }
 
-// RefStepTok is RefStep with a given text for action errors.
-func RefStepTok(a *ASpec, node string, bs map[string]interface{}, pending interface{}, tok string) []StepResult {
+// noBranchTok is the text the model uses for the "followed no branch"
+// error of the step being modelled (set by RefStepTok; the checks are
+// single-threaded per process).
+var noBranchTok = ErrToken
+
+// ErrorTextFrom extracts the text the real step put under "error".
+func ErrorTextFrom(stride *core.Stride) string {
+	if stride != nil && stride.To != nil {
+		if s, ok := stride.To.Bs["error"].(string); ok && s != "" {
+			return s
+		}
+	}
+	return ErrToken
+}
+
+// RefStepTok is RefStep with given texts for action errors and for the
+// "followed no branch" error (error texts are opaque, but bindings that
+// already carry an earlier text are compared with them).
+func RefStepTok(a *ASpec, node string, bs map[string]interface{}, pending interface{}, tok string, errTok ...string) []StepResult {
+	noBranchTok = ErrToken
+	if len(errTok) > 0 && errTok[0] != "" {
+		noBranchTok = errTok[0]
+	}
 	n, have := a.lookup(node)
 	if !have {
 		return []StepResult{{Err: true, Route: "unknown-node"}}
@@ -169,7 +190,7 @@ func considerRef(a *ASpec, n *ANode, node string, orig, cur map[string]interface
 	noBranch := func(consumed bool) []StepResult {
 		if haveAction {
 			bs := jsongen.CopyMap(cur)
-			bs["error"] = ErrToken
+			bs["error"] = noBranchTok
 			bs["lastNode"] = node
 			bs["lastBindings"] = jsongen.CopyMap(orig)
 			return []StepResult{{Node: "error", Bs: bs, Consumed: consumed, Route: "action-node-no-branch"}}
